@@ -145,15 +145,83 @@ def objects_of(ps, tyname):
     return [n for n, t in get(ps, "objects") if is_sub(t, tyname)]
 
 
-def ground_instances(ps):
+# -- actual parameters -------------------------------------------------------------------------
+# An actual parameter travels as the ATOM that spells it (lean/UPVerif/Core/SimTyped.lean `argExpr`): an object name
+# for a user-typed formal parameter, true/false for a Boolean one, a decimal integer for an integer one, `n`
+# (Python int -> Int constant) or `n/d` (Fraction -> Real constant) for a real one.
+
+def enc_arg(c):
+    """constant FNode given as an actual parameter -> atom"""
+    if c.is_object_exp():
+        return c.object().name
+    if c.is_bool_constant():
+        return "true" if c.bool_constant_value() else "false"
+    if c.is_int_constant():
+        return str(c.int_constant_value())
+    if c.is_real_constant():
+        q = Fraction(c.real_constant_value())
+        return f"{q.numerator}/{q.denominator}"
+    raise ValueError(f"not a constant: {c}")
+
+
+def dec_arg(pt, s, obj):
+    """atom -> the Python value / Object handed to ActionInstance or the simulator for a formal parameter of wire
+    type `pt` (`obj(name)` builds the Object)"""
+    if pt == "bool":
+        return {"true": True, "false": False}[s]
+    if isinstance(pt, list) and pt[0] == "int":
+        return int(s)
+    if isinstance(pt, list) and pt[0] == "real":
+        return Fraction(s) if "/" in s else int(s)
+    return obj(s)
+
+
+def arg_value(pt, s):
+    """atom -> pyden value of the actual parameter"""
+    if pt == "bool":
+        return ("b", s == "true")
+    if isinstance(pt, list) and pt[0] in ("int", "real"):
+        return ("n", Fraction(s))
+    return ("o", s)
+
+
+def sample_values(pt):
+    """a few values of an action-parameter type the grounder cannot enumerate (unbounded integer, real), inside the
+    bounds, both signs, integral and fractional; deterministic"""
+    lo = None if pt[1] == "_" else Fraction(pt[1])
+    hi = None if pt[2] == "_" else Fraction(pt[2])
+    cands = ["0", "2", "-1", "5", "1", "3"] if pt[0] == "int" else ["1/2", "2", "0", "3/2", "-1", "5/2", "1"]
+    ok = [c for c in cands if (lo is None or lo <= Fraction(c)) and (hi is None or Fraction(c) <= hi)]
+    return ok[:4]
+
+
+def param_domain(ps, pt, sampled=False):
+    """values of a formal action parameter in the grounder's order (types.py domain_size / domain_item: objects in
+    declaration order, [True, False], lb..ub); None = not groundable (unbounded integer, real) unless `sampled`"""
+    if pt == "bool":
+        return ["true", "false"]
+    if pt[0] == "user":
+        return objects_of(ps, pt[1])
+    if pt[0] == "int" and pt[1] != "_" and pt[2] != "_":
+        return [str(i) for i in range(int(pt[1]), int(pt[2]) + 1)]
+    if sampled and pt[0] in ("int", "real"):
+        return sample_values(pt)
+    return None
+
+
+def ground_instances(ps, numeric=False, sampled=False):
+    """all well-typed instantiations of the actions whose parameters are user-typed (default); with `numeric` also
+    Boolean / bounded-integer parameters (the instances the grounder enumerates); with `sampled` also a few values of
+    unbounded-integer / real parameters (instances a plan may contain although no grounder enumerates them)"""
     out = []
     for a in get(ps, "actions"):
         doms = []
         for pn, pt in a[2]:
-            if pt[0] != "user":
+            d = objects_of(ps, pt[1]) if pt[0] == "user" else (param_domain(ps, pt, sampled) if numeric else None)
+            if d is None:
                 doms = None
                 break
-            doms.append(objects_of(ps, pt[1]))
+            doms.append(d)
         if doms is None:
             continue
         for combo in product(*doms):
@@ -176,8 +244,16 @@ class ProblemGen:
     TYPES = [["T", "_"], ["S", "T"], ["U", "_"]]
     OBJECTS = [["t1", "T"], ["s1", "S"], ["s2", "S"], ["u1", "U"]]
 
-    def __init__(self, rng, undefined=True, invariants=True, metrics=False, quantifiers=True, big=False):
+    # types of the Boolean / integer / real ACTION parameters planted when `num_params` is on
+    NUM_PTYPES = [["int", "1", "3"], ["int", "0", "2"], ["int", "-1", "1"], ["int", "1", "3"], ["int", "_", "_"],
+                  ["int", "0", "_"], ["real", "0", "2"], ["real", "_", "_"], "bool", "bool"]
+
+    def __init__(self, rng, undefined=True, invariants=True, metrics=False, quantifiers=True, big=False, num_params=0.0):
+        """num_params: probability that an action also gets 1-2 Boolean / bounded or unbounded integer / real parameters
+        (used in preconditions, effect values and effect conditions).  0 (default) = user-typed parameters only; no
+        random number is drawn for the feature then, so the generated stream is the historic one."""
         self.rng, self.undefined, self.invariants, self.metrics = rng, undefined, invariants, metrics
+        self.num_params = num_params
         U = lambda n: ["user", n]
         self.FL = {
             "b0": ["b0", "bool", []], "b1": ["b1", "bool", []], "bq": ["bq", "bool", [U("T")]],
@@ -294,7 +370,76 @@ class ProblemGen:
                 effs.append(["eff", "assign", e[2], e[3], self.cond(params, e[5], 1), e[5]])
             elif k < 0.3 and e[1] != "assign":                        # accumulate on one fluent
                 effs.append(["eff", r.choice(["increase", "decrease"]), e[2], e[3], e[4], e[5]])
+        if self.num_params and r.random() < self.num_params:
+            params, pre, effs = self._plant_num_params(params, pre, effs)
         return ["action", f"a{i}", params, ["pre"] + pre, ["effs"] + effs]
+
+    def _plant_num_params(self, params, pre, effs):
+        """1-2 Boolean / integer / real parameters, each used 1-3 times: in a precondition, as (part of) the value of
+        an effect, in the condition of an effect.  Typing follows model/types.py is_compatible_type: an integer
+        parameter may be written to integer and real fluents, a real parameter to real fluents only."""
+        r = self.rng
+        FL = self.FL
+        I = lambda n: ["i", str(n)]
+        new = [[f"k{j}", r.choice(self.NUM_PTYPES)] for j in range(r.choice([1, 1, 2]))]
+        params = [list(p) for p in params]
+        for np_ in new:
+            params.insert(r.randint(0, len(params)), np_)       # before, between or after the user-typed ones
+        pre, effs = list(pre), [list(e) for e in effs]
+        tt = ["b", "T"]
+
+        def fluent_kind(e):
+            ty = e[2][1][1]
+            return "bool" if ty == "bool" else ty[0] if isinstance(ty, list) else "obj"
+
+        for pn, pt in new:
+            P = ["p", pn, pt]
+            isbool = pt == "bool"
+            isreal = (not isbool) and pt[0] == "real"
+            for _ in range(r.choice([1, 1, 2, 2, 3])):
+                where = r.choice(["pre", "value", "value", "cond"])
+                if where == "pre":
+                    if isbool:
+                        pre.append(r.choice([P, ["or", P, ["fl", FL["b0"]]], ["not", P], ["implies", P, ["fl", FL["b1"]]],
+                                             ["iff", P, ["fl", FL["b0"]]]]))
+                    else:
+                        pre.append(r.choice([["le", P, ["fl", FL["xb"]]], ["lt", ["fl", FL["x"]], ["plus", P, I(2)]],
+                                             ["le", P, I(r.choice([0, 1, 2]))], ["not", ["eq", P, I(1)]],
+                                             ["le", ["times", P, I(2)], ["plus", ["fl", FL["xb"]], I(3)]]]))
+                elif where == "cond":
+                    j = r.randrange(len(effs))
+                    if isbool:
+                        c = r.choice([P, ["not", P], ["or", P, ["fl", FL["b1"]]]])
+                    else:
+                        c = r.choice([["lt", P, I(2)], ["le", ["fl", FL["xb"]], P], ["eq", P, I(1)], ["le", I(1), P]])
+                    effs[j][4] = c if effs[j][4] == tt or r.random() < 0.5 else ["and", c, effs[j][4]]
+                else:
+                    want = ("bool",) if isbool else ("real",) if isreal else ("int", "real")
+                    cands = [j for j, e in enumerate(effs) if fluent_kind(e) in want]
+                    if cands and r.random() < 0.7:
+                        j = r.choice(cands)
+                        old = effs[j][3]
+                    else:
+                        if isbool:
+                            f = self.fluent_exp(r.choice(["b0", "b1", "bq"]), [q for q in params if q[1] != "bool" and q[1][0] == "user"])
+                            kind = "assign"
+                        else:
+                            f = ["fl", FL[r.choice(["z", "zb"] if isreal else ["x", "x", "xb", "z"])]]
+                            kind = r.choice(["assign", "increase", "increase", "decrease"])
+                        effs.append(["eff", kind, f, tt, tt if r.random() < 0.7 else self.cond(
+                            [q for q in params if q[1] != "bool" and q[1][0] == "user"], (), 1), []])
+                        j, old = len(effs) - 1, None
+                    if isbool:
+                        v = r.choice([P, P, ["not", P], ["and", P, ["fl", FL["b1"]]]])
+                    elif isreal:
+                        v = r.choice([P, P, ["plus", P, ["r", "1/2"]], ["times", P, ["fl", FL["zb"]]], ["div", P, I(2)]])
+                    else:
+                        v = r.choice([P, P, ["plus", P, I(1)], ["times", I(2), P], ["times", P, ["fl", FL["xb"]]],
+                                      ["minus", I(3), P]])
+                    if old is not None and not isbool and old[0] in ("i", "r") and r.random() < 0.3:
+                        v = ["plus", v, old]
+                    effs[j][3] = v
+        return params, pre, effs
 
     def const_for(self, ref):
         r = self.rng
